@@ -139,7 +139,13 @@ def check_history(keep, keep_all, hist, res, observe=True):
             if not (gen.isalpha() and gen.islower()) and got != name:
                 res.violation('C02|factory|generated-shape', 'generated name %r is not [a-z]+' % gen, case)
                 return False, None
-    key = (tuple(sorted(getattr(f, '_name_map', {}).items())), getattr(f, '_next_name_id', None))
+    # canonical state for de-duplication: the factory's own name map when it is a plain dict (full content, so merged
+    # states have the same futures); otherwise no merging at all (the history itself is the state)
+    nm = getattr(f, '_name_map', None)
+    if isinstance(nm, dict):
+        key = (tuple(sorted(nm.items())), getattr(f, '_next_name_id', None))
+    else:
+        key = ('history', tuple(hist))
     return True, key
 
 
